@@ -10,6 +10,7 @@ import (
 	"net/http"
 	"net/url"
 	"strings"
+	"sync"
 	"time"
 )
 
@@ -106,6 +107,9 @@ type SimIdP struct {
 	Issued    map[string]*Issued
 	Mode      Answer
 	seq       int
+	mu            sync.Mutex // only for the HTTP front (server-level worlds)
+	DiscoveryHits int
+	JWKSHits      int
 	// Tagger returns the calling thread and scheduler step (schedx).
 	Tagger func() (int, int)
 	// Hook is called at the start of RoundTrip (scheduling point / fault injection); an error is a transport error.
